@@ -207,6 +207,163 @@ class Exec:
         return {"f": dict(env["f"]), "v": dict(env["v"])}
 
 
+
+class WExec:
+    """symbolic execution of WriteMemChunks::next with MONADIC expressions (usize additions can overflow, slices can be
+    out of range, WriteMem::new(..).unwrap() can panic); `self.data` is abstracted to its length `dlen`, an item is
+    (address, (lo, hi)) - the index range of the slice handed to WriteMem::new"""
+
+    FIELDS = [("address", "u64"), ("data_idx", "usize"), ("maximum_data_len", "usize")]
+
+    def __init__(self):
+        self.n = 0
+
+    def fresh(self, base):
+        self.n += 1
+        return "%s_%d" % (base, self.n)
+
+    def mexpr(self, e, env):
+        """-> (list of (name, code) bindings, term, type)"""
+        e = e.strip()
+        m = re.fullmatch(r"(.*) as (\w+)", e)
+        if m and m.group(2) in BITS:
+            b, t, _ = self.mexpr(m.group(1), env)
+            return b, "(r_cast %d %s)" % (BITS[m.group(2)], t), m.group(2)
+        m = re.fullmatch(r"(.*) \+ (.*)", e)
+        if m:
+            b1, t1, ty1 = self.mexpr(m.group(1), env)
+            b2, t2, ty2 = self.mexpr(m.group(2), env)
+            if ty1 != ty2:
+                raise ShapeError("addition of %s and %s in %r" % (ty1, ty2, e))
+            v = self.fresh("sum")
+            return b1 + b2 + [(v, "r_add %d %s %s" % (BITS[ty1], t1, t2))], v, ty1
+        if e == "self.data.len()":
+            return [], "dlen", "usize"
+        m = re.fullmatch(r"self\.(\w+)", e)
+        if m and m.group(1) in env["f"]:
+            return [], env["f"][m.group(1)], dict(self.FIELDS)[m.group(1)]
+        raise ShapeError("expression %r" % e)
+
+    @staticmethod
+    def wrap(binds, body):
+        for name, code in reversed(binds):
+            body = "(let? %s := %s in %s)" % (name, code, body)
+        return body
+
+    def state(self, env):
+        return "(" + ", ".join(env["f"][f] for f, _ in self.FIELDS) + ")"
+
+    def run(self, stmts, env):
+        if not stmts:
+            raise ShapeError("a path of `next` falls off the end without a value")
+        s, rest = stmts[0], stmts[1:]
+        if s[0] == "if":
+            m = re.fullmatch(r"(.*?) (==|<) (.*)", s[1].strip())
+            if not m:
+                raise ShapeError("condition %r" % s[1])
+            b1, t1, ty1 = self.mexpr(m.group(1), env)
+            b2, t2, ty2 = self.mexpr(m.group(3), env)
+            if ty1 != ty2:
+                raise ShapeError("comparison of %s with %s" % (ty1, ty2))
+            c = "(%s %s %s)" % (t1, "=?" if m.group(2) == "==" else "<?", t2)
+            if s[3] is None:
+                if not s[2] or s[2][-1][0] != "return":
+                    raise ShapeError("an `if` without `else` must end in `return`")
+                body = "(if %s then %s else %s)" % (c, self.run(s[2], Exec.copy(env)), self.run(rest, env))
+            else:
+                if rest:
+                    raise ShapeError("statements after an if / else that yields the value")
+                body = "(if %s then %s else %s)" % (c, self.run(s[2], Exec.copy(env)), self.run(s[3], Exec.copy(env)))
+            return self.wrap(b1 + b2, body)
+        if s[0] in ("return", "tail"):
+            v = s[1].strip()
+            if v == "None":
+                return "(Ok None)"
+            m = re.fullmatch(r"Some\((\w+)\)", v)
+            if m and m.group(1) in env["v"]:
+                return "(Ok (Some (%s, %s)))" % (env["v"][m.group(1)], self.state(env))
+            raise ShapeError("result %r" % v)
+        if s[0] == "let":
+            m = re.fullmatch(r"WriteMem::new\( ?(.*?), &self\.data\[(.*?)\.\.(.*?)\],? ?\) ?\.unwrap\(\)", s[2])
+            if not m:
+                raise ShapeError("let %s = %r" % (s[1], s[2]))
+            ba, ta, tya = self.mexpr(m.group(1), env)
+            bl, tl, tyl = self.mexpr(m.group(2), env)
+            if m.group(3).strip():
+                bh, th, tyh = self.mexpr(m.group(3), env)
+            else:
+                bh, th, tyh = [], "dlen", "usize"
+            if (tya, tyl, tyh) != ("u64", "usize", "usize"):
+                raise ShapeError("WriteMem::new(%s, [%s..%s])" % (tya, tyl, tyh))
+            sl = self.fresh("slice")
+            chk = self.fresh("new")
+            env["v"][s[1]] = "(%s, %s)" % (ta, sl)
+            binds = ba + bl + bh + [(sl, "r_slice dlen %s %s" % (tl, th)),
+                                    (chk, "r_unwrap (src_write_mem_new (snd %s - fst %s))" % (sl, sl))]
+            return self.wrap(binds, self.run(rest, env))
+        if s[0] == "assign":
+            f, op, e = s[1], s[2], s[3]
+            if f not in env["f"]:
+                raise ShapeError("unknown field %s" % f)
+            b, t, ty = self.mexpr(e, env)
+            fty = dict(self.FIELDS)[f]
+            if ty != fty:
+                raise ShapeError("self.%s (%s) %s %s" % (f, fty, op, ty))
+            if op == "=":
+                env["f"][f] = t
+                return self.wrap(b, self.run(rest, env))
+            if op != "+=":
+                raise ShapeError("operator %s" % op)
+            nv = self.fresh(f)
+            b = b + [(nv, "r_add %d %s %s" % (BITS[fty], env["f"][f], t))]
+            env["f"][f] = nv
+            return self.wrap(b, self.run(rest, env))
+        raise ShapeError("statement %r" % (s,))
+
+
+def translate_write(src):
+    m = re.search(r"pub struct WriteMemChunks<'a>\s*\{", src)
+    if not m:
+        raise ShapeError("struct WriteMemChunks not found")
+    body = re.sub(r"\s+", " ", block_at(src, m.end() - 1)[0]).strip()
+    if body != "address: u64, data: &'a [u8], data_idx: usize, maximum_data_len: usize,":
+        raise ShapeError("fields of WriteMemChunks: %r" % body)
+    m = re.search(r"impl<'a> std::iter::Iterator for WriteMemChunks<'a>\s*\{", src)
+    if not m:
+        raise ShapeError("Iterator impl of WriteMemChunks not found")
+    impl = block_at(src, m.end() - 1)[0]
+    nb = fn_body(impl, r"fn next\(&mut self\)\s*->\s*Option<Self::Item>\s*\{")
+    ex = WExec()
+    env = {"f": {f: f for f, _ in WExec.FIELDS}, "v": {}}
+    next_code = ex.run(parse_block(nb), env)
+    # WriteMem::new
+    nb = fn_body(src, r"pub fn new\(address: u64, data: &'a \[u8\]\)\s*->\s*Result<Self>\s*\{")
+    want = ("let data_len = into_scd_len(data.len())?; let len = into_scd_len(data.len() + 8)?; "
+            "Ok(Self { address, data, data_len, len, })")
+    if re.sub(r"\s+", "", nb) != re.sub(r"\s+", "", want):
+        raise ShapeError("WriteMem::new no longer has the translated shape: %r" % re.sub(r"\s+", " ", nb)[:200])
+    ib = fn_body(src, r"fn into_scd_len\(len: usize\)\s*->\s*Result<u16>\s*\{")
+    if re.sub(r"\s+", "", ib) != 'len.try_into().map_err(|_|Error::InvalidPacket("scdlengthmustbelessthanu16::MAX".into()))':
+        raise ShapeError("into_scd_len no longer has the translated shape: %r" % ib.strip()[:200])
+    # WriteMem::chunks
+    cb = fn_body(src, r"pub fn chunks\(&self, cmd_len: usize\)\s*->\s*Result<WriteMemChunks<'a>>\s*\{")
+    want = ("let cmd_header_len = CommandPacket::<WriteMem>::header_len() + 8; if cmd_len <= cmd_header_len { "
+            "let msg = format!( \"cmd_len must be larger than {}\", CommandPacket::<WriteMem>::header_len() + 8 ); "
+            "return Err(Error::InvalidPacket(msg.into())); }; let maximum_data_len = cmd_len - cmd_header_len; "
+            "Ok(WriteMemChunks { address: self.address, data: self.data, data_idx: 0, maximum_data_len, })")
+    if re.sub(r"\s+", "", cb) != re.sub(r"\s+", "", want):
+        raise ShapeError("WriteMem::chunks no longer has the translated shape: %r" % re.sub(r"\s+", " ", cb)[:300])
+    hb = fn_body(src, r"fn header_len\(\)\s*->\s*usize\s*\{")
+    if re.sub(r"\s+", "", hb) != "4+CommandCcd::len()asusize":
+        raise ShapeError("header_len: %r" % hb)
+    m = re.search(r"impl CommandCcd\s*\{", src)
+    lb = fn_body(src[m.start():] if m else src, r"(?:const )?fn len\(\)\s*->\s*u16\s*\{")
+    mm = re.fullmatch(r"\s*([\d\s+]+)\s*", lb)
+    if not mm:
+        raise ShapeError("CommandCcd::len: %r" % lb.strip()[:100])
+    return dict(wnext=next_code, ccd_len=eval(mm.group(1).strip()))
+
+
 def translate(repo):
     src = strip_comments(open(os.path.join(repo, "device/src/u3v/protocol/cmd.rs")).read().split("#[cfg(test)]")[0])
     fields = struct_fields(src, "ReadMemChunks")
@@ -237,7 +394,9 @@ def translate(repo):
     mb = fn_body(src, r"pub fn maximum_read_length\(maximum_ack_len: usize\)\s*->\s*u16\s*\{")
     if re.sub(r"\s+", "", mb) != "(maximum_ack_len-CommandPacket::<ReadMem>::ACK_HEADER_LENGTH).try_into().unwrap_or(u16::MAX)":
         raise ShapeError("maximum_read_length no longer has the translated shape: %r" % mb.strip()[:200])
-    return dict(next=next_code, hdr=hdr)
+    t = dict(next=next_code, hdr=hdr)
+    t.update(translate_write(src))
+    return t
 
 
 def render(t):
@@ -257,7 +416,21 @@ def render(t):
         "(* (maximum_ack_len - hdr).try_into().unwrap_or(u16::MAX) *)",
         "Definition src_maximum_read_length (maximum_ack_len : Z) : outcome Z :=",
         "  let? d := r_sub 64 maximum_ack_len src_ACK_HEADER_LENGTH in",
-        "  Ok (match r_try_into 16 d 0 with Ok v => v | _ => 65535 end).", ""])
+        "  Ok (match r_try_into 16 d 0 with Ok v => v | _ => 65535 end).", "",
+        "(* ---- write side: `self.data` is abstracted to its length dlen, an item is (address, (lo, hi)) ---- *)",
+        "Definition src_CMD_HEADER_LEN : Z := 4 + %d.   (* header_len() = 4 + CommandCcd::len() *)" % t["ccd_len"], "",
+        "Definition src_into_scd_len (len : Z) : outcome Z := r_try_into 16 len E_INVALID_PACKET.", "",
+        "(* WriteMem::new(address, data) for a slice of length len *)",
+        "Definition src_write_mem_new (len : Z) : outcome unit :=",
+        "  let? _ := src_into_scd_len len in let? l8 := r_add 64 len 8 in let? _ := src_into_scd_len l8 in Ok tt.", "",
+        "Definition src_write_chunks_init (address cmd_len : Z) : outcome (Z * Z * Z) :=",
+        "  let? cmd_header_len := r_add 64 src_CMD_HEADER_LEN 8 in",
+        "  if cmd_len <=? cmd_header_len then Err E_INVALID_PACKET else",
+        "  let? maximum_data_len := r_sub 64 cmd_len cmd_header_len in",
+        "  Ok (address, 0, maximum_data_len).", "",
+        "Definition src_write_next (dlen address data_idx maximum_data_len : Z)",
+        "  : outcome (option ((Z * (Z * Z)) * (Z * Z * Z))) :=",
+        "  " + t["wnext"] + ".", ""])
 
 
 def regenerate(repo=None):
